@@ -2,6 +2,7 @@ use crate::common::Ctx;
 pub mod c15;
 pub mod c07;
 pub mod c08;
+pub mod c08_tok;
 pub mod c16;
 pub mod c12;
 pub mod c20;
